@@ -373,7 +373,12 @@ def render_block(spec, b, grids):
         clad_od, wire_od = pin_dims(n, b["wire"])
         fault = b.get("fault")
         if fault == "pins-exceed-duct":
-            clad_od = r4(clad_od * 2.2)
+            # ARMI documents two refusals for oversized pins: HexBlock.verifyBlockDims (wire-wrapped bundle against the inner
+            # duct; needs wire, clad and a hex duct) and DerivedShape._deriveVolumeAndArea ("component areas exceed the maximum
+            # allowable volume").  Without a wire only the second exists, so the n clads alone are made 1.3 x the block area
+            block_area = (SQRT3 / 2.0 * P * P) if hexgeom else P * Py
+            k = max(2.2, math.sqrt(1.3 * block_area / (n * math.pi / 4.0 * clad_od ** 2)))
+            clad_od = r4(clad_od * k)
         elif fault == "bundle-exceeds-inner-duct":
             # HexBlock.verifyBlockDims: the cold flat-to-flat of the wire-wrapped bundle, sqrt3 (rings-1) (clad od + wire od) +
             # clad od + 2 wire od, may exceed the inner flat-to-flat of the INNERMOST duct by at most 0.01 cm.  Here it is
@@ -729,6 +734,8 @@ def faulty(spec, kind, a):
             return None
         b = spec["blocks"][cands[a % len(cands)]]
         b["fault"] = kind
+        if kind == "pins-exceed-duct":
+            b["grid"] = False  # (the number of pins is then the stated mult, not the count of occupied lattice positions)
         if kind == "bundle-exceeds-inner-duct":
             # the well-formed base document is the same block with two ducts, a wire wrap and no pin lattice
             b["twoDucts"], b["wire"], b["grid"] = True, True, False
